@@ -59,3 +59,14 @@ func (v *VerifPoolWorld) RunWithConcurrentFilter(windowAt int, op func()) bool {
 	}
 	return true
 }
+
+// StoredPoolSize: the size of the Pool object p1 as stored (-1: no such object).
+func (v *VerifPoolWorld) StoredPoolSize() int {
+	if p, ok := v.w.pools["p1"]; ok {
+		return p.Size
+	}
+	return -1
+}
+
+// DeletePoolObject removes the Pool object (the pool is then a named pool without size).
+func (v *VerifPoolWorld) DeletePoolObject() { delete(v.w.pools, "p1"); v.w.syncListers() }
